@@ -20,13 +20,26 @@
      4  (not a failure, counted as skipped) the model's bytes differ from the
         implementation's but both round-trip: a harmless rewrite;
      0  agreement: model bytes = implementation bytes, and both tokenizers
-        agree on source and serialization. *)
-From Verif Require Export Css.Ser Css.RetokSpec Css.SerWf.
+        agree on source and serialization.
+
+   Compound cases (`CCP`): a rule or declaration returned by /repo's parsers
+   (position-free), the bytes of its own serializeTo, and the Go-side verdict
+   "the bytes parse back to one compound with the same observables":
+     8  the implementation's own compound round trip failed;
+     9  the model of the compound serializers (Css/SerCompound.v) returns other
+        bytes than the implementation (or panics);
+     10 reading the implementation's bytes back with the specification
+        (RetokSpec.tokenize + SerCompound.read_back) does not give the compound
+        (kind, at-keyword / name, prelude / value, block present or absent and
+        its contents, !important), up to comments / positions;
+     7  a token list of the compound is outside wf_tokens. *)
+From Verif Require Export Css.Ser Css.RetokSpec Css.SerWf Css.SerCompound.
 From Coq Require Import List NArith Bool.
 Import ListNotations.
 
 Inductive case :=
-| CRT (skip : bool) (src : list N) (ts : list token) (goser : list N) (ok : bool).
+| CRT (skip : bool) (src : list N) (ts : list token) (goser : list N) (ok : bool)
+| CCP (c : compound) (goser : list N) (ok : bool).
 
 (* structural equality, positions ignored *)
 Fixpoint tok_eqb (a b : token) : bool :=
@@ -60,8 +73,46 @@ Fixpoint toks_eqb (l1 l2 : list token) : bool :=
 Definition roundtrips (goser : list N) (ts : list token) : bool :=
   toks_eqb (norm (tokenize true goser)) (norm ts).
 
+Definition opt_toks_eqb (a b : option (list token)) : bool :=
+  match a, b with
+  | None, None => true
+  | Some x, Some y => toks_eqb x y
+  | _, _ => false
+  end.
+
+Definition compound_eqb (a b : compound) : bool :=
+  match a, b with
+  | CQualified p c, CQualified p' c' => toks_eqb p p' && toks_eqb c c'
+  | CAtRule k p c, CAtRule k' p' c' => str_eqb k k' && toks_eqb p p' && opt_toks_eqb c c'
+  | CDecl n v i, CDecl n' v' i' => str_eqb n n' && toks_eqb v v' && Bool.eqb i i'
+  | _, _ => false
+  end.
+
+Definition compound_wf (c : compound) : bool :=
+  match c with
+  | CQualified p b => wf_tokens p && wf_tokens b
+  | CAtRule kw p b => name_val kw && wf_tokens p && match b with Some b => wf_tokens b | None => true end
+  | CDecl n v _ => name_val n && wf_tokens v
+  end.
+
+(* the bytes read back, by the specification, as the compound *)
+Definition reads_back (goser : list N) (c : compound) : bool :=
+  match read_back c (norm (tokenize true goser)) with     (* the form of C20_compound_roundtrip_statement *)
+  | Some c' => compound_eqb (norm_compound c') (norm_compound c)
+  | None => false
+  end.
+
 Definition check (c : case) : N :=
   match c with
+  | CCP c goser ok =>
+      if negb ok then 8%N
+      else if negb (compound_error_free c) then 2%N
+      else if negb (compound_wf c) then 7%N
+      else match ser_compound c with
+           | Ok s => if negb (str_eqb s goser) then 9%N
+                     else if negb (reads_back goser c) then 10%N else 0%N
+           | _ => 9%N
+           end
   | CRT skip src ts goser ok =>
       if negb ok then 1%N
       else if negb (toks_eqb (tokenize skip src) ts) then 5%N
@@ -77,9 +128,12 @@ Definition check (c : case) : N :=
 
 (* for replay files: the model's serialization, its re-tokenisation by the
    specification, and the specification's tokenisation of the source *)
-Inductive observable := Obs (model_ser : res str) (spec_retok_of_go_ser spec_tok_of_src : list token).
+Inductive observable :=
+| Obs (model_ser : res str) (spec_retok_of_go_ser spec_tok_of_src : list token)
+| ObsCompound (model_ser : res str) (spec_read_back_of_go_ser : option compound).
 Definition model_out (c : case) : observable :=
   match c with
+  | CCP c goser _ => ObsCompound (ser_compound c) (option_map norm_compound (read_back c (norm (tokenize true goser))))
   | CRT skip src ts goser _ => Obs (serialize ts) (norm (tokenize true goser)) (tokenize skip src)
   end.
 
